@@ -149,8 +149,12 @@ def api_search(chk, n_cases):
         unique = rng.random() < 0.5
         info = {"dt": dt, "n": n, "start": start, "dkmax": dkmax, "tau_add": tau, "system": kind, "epsrel": eps, "unique": unique}
         try:
-            t = oqupy.Tempo(sysm, bath, par, rho0, start, unique=unique)
-            ds = np.array(quiet(t.compute, start + n * dt, progress_type="silent").states)
+            if it % 3 == 2:
+                # the one-call wrapper must be the same computation
+                ds = np.array(quiet(oqupy.tempo_compute, sysm, bath, rho0, start, start + n * dt, parameters=par, unique=unique, progress_type="silent").states)
+            else:
+                t = oqupy.Tempo(sysm, bath, par, rho0, start, unique=unique)
+                ds = np.array(quiet(t.compute, start + n * dt, progress_type="silent").states)
             pt = quiet(oqupy.pt_tempo_compute, bath, start, start + n * dt, parameters=par, unique=unique, progress_type="silent")
             dp = np.array(quiet(oqupy.compute_dynamics, sysm, initial_state=rho0, process_tensor=pt, start_time=start,
                                 subdiv_limit=None, progress_type="silent").states)
